@@ -378,8 +378,12 @@ class Model(object):
         return None
 
     def remove_rule(self, anchor):
+        # the registry entry goes first; the request is then refused if the anchor is not a
+        # node of the index (possible after a clear() that was given no rules)
         del self.rules[anchor]
         del self.rules_src[anchor]
+        if anchor not in self.nodes:
+            raise Refused()
         self.flags.discard(anchor)
         return True
 
